@@ -114,6 +114,23 @@ def hist(positions, err_fields, sets, fmt=None):
     return f
 
 
+def cfg_hist(case, toks, log, items):
+    """C03, one configuration against S; a built-in limited policy may refuse (as documented): what came before counts"""
+    msg = oracles.builtin_policy_check(case, log)
+    if msg:
+        v = oracles.Verdict()
+        v.failures.append(msg)
+        return v
+    bl = next((k for k, t in enumerate(toks) if oracles.strip_growth(t).startswith('E:bl')), None)
+    if bl is not None:
+        case = dict(case, ops=case['ops'][:bl])
+        toks = toks[:bl]
+    v = oracles.history_oracle(case, toks, items, positions=True, err_fields=True, sets=False)
+    if bl is not None and not v.failures:
+        v.domain_end = 'the policy refused, as its documentation says'
+    return v
+
+
 def member(case, toks, log, items):
     return oracles.membership_oracle(case, toks, items)
 
@@ -380,8 +397,10 @@ class GroupRunner(ReaderRunner):
         for i in range(0, len(cases) - g + 1, g):
             group = []
             for c, o in zip(cases[i:i + g], impl[i:i + g]):
-                toks, _ = split_obs(canon(o))
-                group.append((parse_case(c), toks))
+                toks, log = split_obs(canon(o))
+                cd = parse_case(c)
+                cd['_log'] = log
+                group.append((cd, toks))
             msg = self.group_oracle(group)
             if msg:
                 if len(res.oracle_failures) < 200:
@@ -452,7 +471,7 @@ PROPS['C03'] = dict(
     theorems=[],
     runner=GroupRunner(
         quick=[('fa_cfg', 3000), ('fq_cfg', 3000)], thorough=[('fa_cfg', 60000), ('fq_cfg', 60000)],
-        group_size=6, group_oracle=cfg_group, oracle=hist(True, True, False)),
+        group_size=6, group_oracle=cfg_group, oracle=cfg_hist),
     rule='every generated input (valid, mutated) is read under six configurations (capacity 3 with 1-byte reads; small capacity with a '
          'slowly growing policy, 2-byte reads and interrupted reads; capacity near the input length; 64; larger than the input; '
          'table-driven policy) and the complete observation streams (records, positions, errors with all fields, place of the end) are '
